@@ -410,6 +410,8 @@ def base_models(gdim=None, tdim=None):
     cm["Atan2"] = lambda a, b: node(uflsem.t_fn("atan2", a, b), "Atan2", (as_T(a), as_T(b)))
     for cls, fname in [("BesselJ", "bessel_J"), ("BesselY", "bessel_Y"), ("BesselI", "bessel_I"), ("BesselK", "bessel_K")]:
         cm[cls] = (lambda fname, cls: lambda nu, a: node(_bessel_fn(fname)(nu, a), cls, (as_T(nu), as_T(a))))(fname, cls)
+    cm["CellAvg"] = lambda a: node(uflsem.t_fn("cell_avg", a) if as_T(a).shape == () else as_T(a).map(lambda v: sym.fn("cell_avg", v)), "CellAvg", (as_T(a),))
+    cm["FacetAvg"] = lambda a: node(as_T(a).map(lambda v: sym.fn("facet_avg", v)), "FacetAvg", (as_T(a),))
     if gdim is not None:
         cm["Grad"] = lambda a: node(grad_named(a, gdim, "d"), "Grad", (as_T(a),))
     if tdim is not None:
